@@ -31,6 +31,9 @@ func (s *ModelServer) ListChildren(_ context.Context, request *traits.ListChildr
 	}
 
 	lastKey := pageToken.GetLastResourceName() // the key() of the last item we sent
+	if err := validatePageSize(request.GetPageSize()); err != nil {
+		return nil, err
+	}
 	pageSize := capPageSize(int(request.GetPageSize()))
 
 	all := s.model.ListChildren()
